@@ -41,6 +41,11 @@ def check_sites(rep, crate, cfgname, vetted, counts):
             why = sites.discharge(s) if s['kind'] != 'panic' else None
             if why:
                 rep.ok('SITE', key, s['where'], fact + f' is guarded: {why}', fn=b.path)
+            elif s['key'] in vetted and s['kind'] == 'panic' and (vetted[s['key']].get('when') or {}).get(cfgname) not in (None, s.get('when')):
+                rep.bad('SITE', f"SITE-COND:{s['key']}", s['where'], f"[{cfgname}] the vetted assert now fires when: {s.get('when', '?')[:300]}",
+                        'fires when: ' + vetted[s['key']]['when'][cfgname][:300], fn=b.path, direction='assert condition changed',
+                        why='a weakened assert lets ill-formed input through to code that relies on it; a strengthened one panics on input that was '
+                            'well-formed -- either way the vetted invariant no longer describes this site')
             elif s['key'] in vetted:
                 rep.ok('SITE', key, s['where'], fact + ' relies on a vetted invariant: ' + vetted[s['key']]['invariant'], fn=b.path)
             else:
@@ -427,3 +432,22 @@ def check_bw_brute_force(rep, dbg):
     else:
         rep.bad('BW-SIB', 'BW-SIB:lemma19', where, f'brute force is {T.show(T.canon(brute))[:400]}', T.show(T.canon(want))[:400], fn=path,
                 direction='debug builds assert against a different enumeration than release builds use')
+    # the manual check of the first element: brute.peek() == steps.peek().filter(|a| a <= max_offset), and the pairwise check
+    prod = T.unroot(zips[0][1])
+    mo_t = T.root(('try', mo[0]))
+    first_want = ('eq', *sorted([('optfilter', ('peekof', prod), ('lam', 0, T.cmp('Le', T.root(T.bv(0)), mo_t))), ('peekof', want)], key=T.key))
+    pair_want = T.tnot(T.eq0(T.sub(T.root(T.fld(T.bv(0), '0')), T.root(T.fld(T.bv(0), '1')))))
+    pans = [e for e in ev.events if e['kind'] == 'panic' and e['depth'] == 0 and any('assert_eq' in m for m in (e['node'].get('mac') or []))]
+    def accepted(e):
+        for c in e['pc']:
+            if T.same(T.tnot(first_want), c) or T.same(pair_want, c) or \
+                    T.same(T.tnot(T.eq0(T.sub(T.root(T.fld(T.bv(0), '1')), T.root(T.fld(T.bv(0), '0'))))), c):
+                return True
+        return False
+    # (a removed cross-check changes nothing on well-formed input; a cross-check of something else can panic)
+    if all(accepted(e) for e in pans):
+        rep.ok('BW-SIB', 'BW-SIB:asserts', where, f'{len(pans)} assert_eq! cross-check(s): first elements agree (production first step counted only if <= max_offset) / pairwise equality of the zipped sequences', fn=path)
+    else:
+        rep.bad('BW-SIB', 'BW-SIB:asserts', where, 'debug cross-checks fire when: ' + ' | '.join(' && '.join(T.show(T.canon(c)) for c in e['pc'])[:260] for e in pans),
+                f'{T.show(T.canon(T.tnot(first_want)))[:200]} ; {T.show(pair_want)}', fn=path,
+                direction='debug builds panic on well-formed input (or check nothing) when the cross-check compares something else than release builds use')
